@@ -257,4 +257,21 @@ def resolve (m : Mapping) (host : List Str) : Str :=
     | some r => r
     | none => []
 
+/-! ### durations: the `h:m[:s]` form of `parseDuration` (reached when the text is neither a Go duration
+    nor a plain number of seconds and holds a ':') -/
+
+/-- `strconv.ParseInt(n, 10, 16)` accepts exactly the 16-bit signed range -/
+def int16Ok (p : Int) : Bool := decide (-32768 ≤ p) && decide (p ≤ 32767)
+
+/-- seconds denoted by the parts of `h:m[:s]`; `none` is the "invalid time duration value" error
+    (the arity test comes before the parts are read, as in the Go code) -/
+def hmsSeconds (parts : List Int) : Option Int :=
+  if parts.length < 2 || parts.length > 3 then none
+  else if parts.all int16Ok then
+    match parts with
+    | [h, m] => some (h * 3600 + m * 60)
+    | [h, m, s] => some (h * 3600 + m * 60 + s)
+    | _ => none
+  else none
+
 end Krb.Conf
